@@ -613,6 +613,150 @@ def cbc12_dec_call(variant):
                stmts=dict({'0': DEC_PRE, '2': AFTER_CHUNKS, '3': after_cut, '4': after_dec, '4.0.0': early, '7': before_split, 'end': end}, **steps))
 
 
+def cbc3_dec_call():
+    pre = CLOSURE_PRE + '''
+        let ghost iv0 = self.iv@;
+        let ghost df = cipher.dec_fn();
+        let ghost m0 = buf0.in_val();
+'''
+    one_block_a = '''
+            let ghost hb1 = blocks;
+            proof {
+                assert((ll as int) / (bl as int) == 1 && (ll as int) % (bl as int) == 0) by (nonlinear_arith) requires ll == bl, bl > 0;
+            }
+'''
+    one_block_b = '''
+            proof {
+                let c1 = aviews(hb1.in_val());
+                cbc_p_is_run(df, iv0, c1);
+                assert(is_chunking(m0, bl, c1, Seq::<u8>::empty()));
+                assert(c1.len() == 1);
+                assert(aviews(hb1.out_fut()) == cbc_dec_chain(df, iv0, c1));
+                assert(buf0.out_fut() =~= flatg(aviews(hb1.out_fut())));
+                flatg_len(aviews(hb1.out_fut()), bl);
+                assert(buf0.out_fut().len() == ll) by { assert(1 * bl == bl) by (nonlinear_arith); }
+                assert(buf0.out_fut() == cbc_cs_dec(3, df, iv0, c1, Seq::<u8>::empty()));
+                assert forall |ps: Seq<Blk>, t: Seq<u8>| #[trigger] is_chunking(m0, bl, ps, t) implies buf0.out_fut() == cbc_cs_dec(3, df, iv0, ps, t) by {
+                    chunking_unique(m0, bl, ps, t, c1, Seq::<u8>::empty());
+                }
+            }
+'''
+    # ll > bl from here on
+    arith = '''
+        let ghost nq = (ll as int) / (bl as int);
+        let ghost dr = (ll as int) % (bl as int);
+        proof {
+            vstd::arithmetic::div_mod::lemma_fundamental_div_mod(ll as int, bl as int);
+            assert(ll == bl * nq + dr);
+            assert(bl * nq == nq * bl) by (nonlinear_arith);
+            assert(0 <= dr < bl);
+            assert(nq >= 1) by (nonlinear_arith) requires ll == nq * bl + dr, ll > bl, dr < bl, bl > 0;
+            assert(dr == 0 ==> nq >= 2) by (nonlinear_arith) requires ll == nq * bl + dr, ll > bl, bl > 0;
+            div_ceil_of_chunks(nq, dr, bl as int);
+        }
+'''
+    after_main = '''
+        let ghost mb = main_blocks as int;
+        proof {
+            assert(blocks_len == (if dr == 0 { nq } else { nq + 1 }));
+            assert(mb == (if dr == 0 { nq - 2 } else { nq - 1 }));
+            assert(bs * mb == mb * bl) by (nonlinear_arith) requires bs == bl;
+            assert(mb * bl <= nq * bl) by (nonlinear_arith) requires mb <= nq, bl >= 0;
+            div_ceil_of_chunks(mb, 0, bl as int);
+        }
+'''
+    after_split = '''
+        let ghost midg = mb * bl;
+        let ghost tl = m0.skip(midg);
+        let ghost tb = tail;
+        proof {
+            assert(tail.in_val() =~= tl);
+            assert(tl.len() == ll - midg);
+            assert(nq * bl - mb * bl == (nq - mb) * bl) by (nonlinear_arith);
+            assert(2 * bl == bl + bl);
+            assert(tl.len() > bl && tl.len() <= 2 * bl) by {
+                if dr == 0 { assert((nq - mb) * bl == 2 * bl) by (nonlinear_arith) requires nq - mb == 2; }
+                else { assert((nq - mb) * bl == 1 * bl) by (nonlinear_arith) requires nq - mb == 1; }
+            }
+        }
+'''
+    after_chunks = '''
+        let ghost hb = blocks;
+        let ghost hc = aviews(hb.in_val());
+        proof {
+            assert(hb.out_cur().len() == mb);
+            assert(rem.in_val() =~= Seq::<u8>::empty());
+            assert(flatg(hc) =~= m0.take(midg));
+        }
+'''
+    after_dec = '''
+        let ghost hp = cbc_dec_chain(df, iv0, hc);
+        let ghost prev = if hc.len() == 0 { iv0 } else { hc[hc.len() - 1] };
+        proof {
+            cbc_p_is_run(df, iv0, hc);
+            run_len(cbc_dec_step(df), seq![iv0], hc);
+            assert(aviews(hb.out_fut()) == hp);
+            assert(seq![iv@][0] == seq![prev][0]);
+        }
+'''
+    steps = {
+        '12': '''
+        let ghost dn = tl.len() - bl;
+        let ghost c_n = tl.take(bl as int);
+        let ghost c_star = tl.skip(bl as int);
+        let ghost z = df(c_n);
+        let ghost c_pen = c_star + z.skip(dn);
+        assert(n == dn);
+''',
+        '13': 'assert(block1@ =~= c_n);',
+        '14': 'assert(block1@ == z);',
+        '15': ZERO_HINT,
+        '17': 'assert(block2@.take(dn) =~= c_star);',
+        '18': 'assert(block2@ =~= c_pen);',
+        '19': 'assert(block1@ == xor_seq(z, c_pen));',
+        '21': 'assert(block2@ == xor_seq(df(c_pen), prev));',
+    }
+    end = '''
+        proof {
+            let tailp = cbc_cs_dec_tail(df, prev, c_star, c_n);
+            assert(tail.out_cur() =~= tailp);
+            flatg_len(hp, bl);
+            assert(buf0.out_fut() =~= flatg(hp) + tailp);
+            assert forall |ps: Seq<Blk>, t: Seq<u8>| #[trigger] is_chunking(m0, bl, ps, t) implies buf0.out_fut() == cbc_cs_dec(3, df, iv0, ps, t) by {
+                chunking_len(m0, bl, ps, t);
+                assert(ps.len() == nq && t.len() == dr);
+                flatg_len(ps, bl);
+                flatg_take(ps, mb, bl);
+                // the head blocks the code decrypted are the first mb blocks of ps
+                assert(m0.take(midg) =~= flatg(ps).take(midg));
+                assert forall |i: int| 0 <= i < ps.take(mb).len() implies (#[trigger] ps.take(mb)[i]).len() == bl by { assert(ps.take(mb)[i] == ps[i]); }
+                flatg_unique(hc, Seq::<u8>::empty(), ps.take(mb), Seq::<u8>::empty(), bl);
+                assert(hc == ps.take(mb));
+                assert(tl =~= flatg(ps).skip(midg) + t);
+                if dr == 0 {
+                    assert(t =~= Seq::<u8>::empty());
+                    assert(ps.skip(mb) =~= seq![ps[nq - 2], ps[nq - 1]]);
+                    assert(seq![ps[nq - 2], ps[nq - 1]].drop_last() =~= seq![ps[nq - 2]]);
+                    flatg_one(seq![ps[nq - 2]]);
+                    assert(flatg(ps.skip(mb)) =~= ps[nq - 2] + ps[nq - 1]);
+                    assert(c_n =~= ps[nq - 2]);
+                    assert(c_star =~= ps[nq - 1]);
+                    assert(cs_dec_pieces(3, ps, t) == (ps.take(nq - 2), ps[nq - 1], ps[nq - 2]));
+                } else {
+                    assert(ps.skip(mb) =~= seq![ps[nq - 1]]);
+                    flatg_one(seq![ps[nq - 1]]);
+                    assert(c_n =~= ps[nq - 1]);
+                    assert(c_star =~= t);
+                    assert(cs_dec_pieces(3, ps, t) == (ps.take(nq - 1), t, ps[nq - 1]));
+                }
+            }
+        }
+'''
+    return FnC(props=PG, inherits=True, attrs=['#[verifier::loop_isolation(false)]'],
+               stmts=dict({'0': pre, '2.0.1': one_block_a, '2.0.2': one_block_b, '3': arith, '5': after_main, '6': after_split,
+                           '7': after_chunks, '11': after_dec, 'end': end}, **steps))
+
+
 def variant_mod(fname, obj, cbc, variant, enc_call=None, dec_call=None):
     modname = 'cts_' + fname
     b = 'C::BlockSize::USIZE as nat'
@@ -676,7 +820,7 @@ def unit():
     return Unit('cts', prelude=K.PRELUDE_BLOCK, spec=['steps.rs', 'cts.rs'], mods=[lib_mod(),
                       variant_mod('cbc_cs1', 'CbcCs1', True, 1, enc_call=cbc_enc_call(1), dec_call=cbc12_dec_call(1)),
                       variant_mod('cbc_cs2', 'CbcCs2', True, 2, enc_call=cbc_enc_call(2), dec_call=cbc12_dec_call(2)),
-                      variant_mod('cbc_cs3', 'CbcCs3', True, 3, enc_call=cbc_enc_call(3)),
+                      variant_mod('cbc_cs3', 'CbcCs3', True, 3, enc_call=cbc_enc_call(3), dec_call=cbc3_dec_call()),
                       variant_mod('ecb_cs1', 'EcbCs1', False, 1, enc_call=ecb_enc_call(1)),
                       variant_mod('ecb_cs2', 'EcbCs2', False, 2, enc_call=ecb_enc_call(2)),
                       variant_mod('ecb_cs3', 'EcbCs3', False, 3, enc_call=ecb_enc_call(3))])
